@@ -81,7 +81,7 @@ SPECS = [
               "`self.err(..)` (logging) dropped"),
     Spec(GROUP, "tco_dlc_send_wait_cond", F, DLC + "send", [],
          binds=[("self.send_window_slots", "slots", INT), ("self.state.ESTABLISHED", "established", BOOL)],
-         expr="self.send_window_slots == 0 and self.state.ESTABLISHED",
+         expr="self.send_window_slots == 0 and self.state.ESTABLISHED", whole=True,
          note="cut: the condition of the `while` that waits for a free send window slot; the property "
               "`send_window_slots` is a parameter (tco_send_window_slots)"),
     Spec(GROUP, "tco_dlc_send_dontwait", F, DLC + "send", [("flags", INT)],
@@ -128,18 +128,18 @@ SPECS = [
               "to `super().setsockopt` is not translated; result (recv_miu, recv_win, recv_buf, RECV_BUSY)"),
     Spec(GROUP, "tco_sendack_cond", F, DLC + "sendack", [],
          binds=[("self.recv_confs", "recv_confs", INT), ("self.recv_cnt", "recv_cnt", INT), ("self.recv_ack", "recv_ack", INT)],
-         expr="self.recv_confs and self.recv_cnt != self.recv_ack", ret=BOOL,
+         expr="self.recv_confs and self.recv_cnt != self.recv_ack", whole=True, ret=BOOL,
          note="cut: truth value of the test for a voluntary acknowledgement"),
     Spec(GROUP, "tco_deq_necessary_cond", F, DLC + "dequeue", [],
          binds=[("self.state.ESTABLISHED", "established", BOOL), ("self.recv_confs", "recv_confs", INT),
                 ("self.recv_window_slots", "slots", INT)],
-         expr="self.state.ESTABLISHED and self.recv_confs and (self.recv_window_slots == 0)", ret=BOOL,
+         expr="self.state.ESTABLISHED and self.recv_confs and (self.recv_window_slots == 0)", whole=True, ret=BOOL,
          note="cut: truth value of the test for a necessary acknowledgement; the property `recv_window_slots` "
               "is a parameter (tco_recv_window_slots)"),
     # --- state checks of the socket calls and poll()
     Spec(GROUP, "tco_poll_send_ready", F, "TransmissionControlObject.poll", [],
          binds=[("len(self.send_queue)", "queued", INT), ("self.send_buf", "send_buf", INT)],
-         expr="len(self.send_queue) < self.send_buf", note="cut: result of poll('send'); the queue length is a parameter"),
+         expr="len(self.send_queue) < self.send_buf", whole=True, note="cut: result of poll('send'); the queue length is a parameter"),
     Spec(GROUP, "tco_poll_acks", F, DLC + "_poll", [], binds=[("self.acks_recvd", "acks_recvd", INT)],
          stores=["self.acks_recvd"], path=[(1, "orelse"), (0, "orelse"), (0, "body"), (0, "body")], stmts=(1, 3),
          note="cut: poll('acks') after the wait: statements 1-2 inside `with self.acks_ready`; the bool result"),
@@ -317,6 +317,16 @@ MUTATIONS = [
     ("tco_dlc_connect_state", "EISCONN / EALREADY swapped", "raise err.Error(errno.EISCONN)", "raise err.Error(errno.EALREADY)"),
     ("tco_dlc_accept_state", "errno of accept() on a non-listening socket", "raise err.Error(errno.EINVAL)", "raise err.Error(errno.ENOTSUP)"),
     ("tco_dlc_recv_state", "recv() refused in CLOSE_WAIT", "if not (self.state.ESTABLISHED or self.state.CLOSE_WAIT):\n                self.err(\"recv()", "if not (self.state.ESTABLISHED):\n                self.err(\"recv()"),
+    ("tco_sendack_cond", "voluntary-ack condition gains an operand",
+     "if self.recv_confs and self.recv_cnt != self.recv_ack:\n                    self.log(\"voluntary",
+     "if self.recv_confs and self.recv_cnt != self.recv_ack or self.mode.RECV_BUSY:\n                    self.log(\"voluntary"),
+    ("tco_dlc_send_wait_cond", "wait condition gains an operand",
+     "while self.send_window_slots == 0 and self.state.ESTABLISHED:",
+     "while self.send_window_slots == 0 and self.state.ESTABLISHED and not self.mode.SEND_BUSY:"),
+    ("tco_deq_necessary_cond", "necessary-ack condition gains an operand", "and self.recv_window_slots == 0)):",
+     "and self.recv_window_slots == 0) or self.mode.RECV_BUSY):"),
+    ("tco_poll_send_ready", "truthiness of the poll result changed", "return len(self.send_queue) < self.send_buf",
+     "return (len(self.send_queue) < self.send_buf) is True or None"),
     ("tco_dlc_send_state", "EPIPE / ENOTCONN swapped", "if self.state.CLOSE_WAIT:", "if not self.state.CLOSE_WAIT:"),
     ("tco_dlc_send_wait_cond", "window test off by one", "while self.send_window_slots == 0 and", "while self.send_window_slots <= 1 and"),
     ("tco_dlc_send_dontwait", "EWOULDBLOCK replaced by EAGAIN alias check inverted", "if flags & nfc.llcp.MSG_DONTWAIT:", "if not flags & nfc.llcp.MSG_DONTWAIT:"),
